@@ -1,6 +1,218 @@
-//! Component `journal` (see /verif/FRAMEWORK.md).
+//! Component `journal` (see /verif/FRAMEWORK.md): event journal + restore + prune (C10, C11, C12).
+//!
+//! `hqv journal gen …` generates producible journals (genr.rs), writes them with the REAL `JournalWriter`,
+//! restores every chosen prefix / torn tail with the REAL `StateRestorer` (hook), prunes with the REAL
+//! `prune_journal`, prints canonical results and evaluates the monitors (exec.rs, spec.rs).
+//! `hqv journal replay` re-executes the `op` lines of a trace read from stdin.
+mod exec;
+mod genr;
+mod rec;
+mod spec;
 
-pub fn main(mode: &str, _args: &[String]) {
-    eprintln!("component journal: mode {mode} not implemented yet");
-    std::process::exit(2);
+use std::io::BufRead;
+use std::path::PathBuf;
+
+use crate::util::{GenArgs, Rng, Trace, parse_list};
+use exec::Exec;
+use genr::Gen;
+use rec::{Desc, GTask, Rec};
+
+fn workdir() -> tempfile::TempDir {
+    let shm = PathBuf::from("/dev/shm");
+    if shm.is_dir() {
+        tempfile::TempDir::with_prefix_in("hqv-journal", &shm).unwrap()
+    } else {
+        tempfile::TempDir::with_prefix("hqv-journal").unwrap()
+    }
+}
+
+fn u32s(s: &str) -> Vec<u32> {
+    parse_list(s).into_iter().map(|x| x as u32).collect()
+}
+
+/// one malformed variant of a producible journal (the model must predict the error / panic / silent acceptance)
+fn mutate(rng: &mut Rng, recs: &mut Vec<Rec>) -> &'static str {
+    let n = recs.len();
+    let pos = rng.below(n as u64) as usize;
+    match rng.below(11) {
+        0 => { recs.remove(pos); "drop" }
+        1 => { let r = recs[pos].clone(); recs.insert(pos, r); "dup" }
+        2 => { if pos + 1 < n { recs.swap(pos, pos + 1); } "swap" }
+        3 => { recs.insert(pos, Rec::TFin(1, rng.below(3) as u32)); "tfin-anywhere" }
+        4 => { recs.insert(pos, Rec::JClose(rng.range(1, 4) as u32)); "jclose-anywhere" }
+        5 => { recs.insert(pos, Rec::JCancel(rng.range(1, 9) as u32)); "jcancel-anywhere" }
+        6 => { recs.insert(pos, Rec::QNew(1)); "qnew-dup" }
+        7 => {
+            recs.insert(pos, Rec::Submit { job: 1, closed: false, mf: None, desc: Desc::Array { ranges: vec![(0, 2, 1)], entries: None } });
+            "attach-existing-ids"
+        }
+        8 => {
+            let bad = rng.chance(1, 2);
+            recs.insert(pos, Rec::Submit { job: 40 + rng.below(2) as u32, closed: true, mf: None, desc: Desc::Graph(vec![
+                GTask { id: 0, deps: vec![], rq_ok: true },
+                GTask { id: if bad { 0 } else { 1 }, deps: vec![if bad { 0 } else { 5 }], rq_ok: true },
+            ]) });
+            "graph-invalid"
+        }
+        9 => {
+            recs.insert(pos, Rec::Submit { job: 50, closed: true, mf: None, desc: Desc::Graph(vec![GTask { id: 0, deps: vec![], rq_ok: false }]) });
+            "graph-bad-rq"
+        }
+        _ => {
+            recs.insert(pos, Rec::Submit { job: 60, closed: true, mf: None, desc: Desc::Array { ranges: vec![(0, 3, 1), (2, 2, 1)], entries: Some(2) } });
+            "array-overlap"
+        }
+    }
+}
+
+fn gen_case(tr: &mut Trace, idx: u64, subseed: u64, thorough: bool, kind: &str, actions: u32) {
+    let dir = workdir();
+    let mut g = Gen::new(subseed);
+    g.multi_job_batches = kind == "multibatch";
+    g.fail_before_start = kind == "failstart";
+    for _ in 0..actions { g.action(); }
+    let mut recs = g.out.clone();
+    let mut rng = Rng::new(subseed ^ 0xABCDEF);
+    let mut what = "-";
+    if kind == "malformed" {
+        what = mutate(&mut rng, &mut recs);
+    }
+    let mut ex = Exec::new(dir.path(), kind != "malformed");
+    tr.case(idx, subseed, &format!("hdr={} kind={kind} actions={actions} mut={what} tier={}", ex.hdr, if thorough { "t" } else { "q" }));
+    for r in &recs {
+        let toks = r.tokens();
+        let size = ex.append(r.clone());
+        tr.op(&format!("rec {size} {toks}"));
+    }
+    let n = recs.len();
+    // --- restores at record boundaries
+    let mut ks: Vec<usize> = (0..=n).collect();
+    let limit = if thorough { usize::MAX } else { 40 };
+    if ks.len() > limit {
+        // keep the end, the start and a random sample
+        let mut keep = vec![0, n];
+        while keep.len() < limit {
+            let k = rng.below(n as u64 + 1) as usize;
+            if !keep.contains(&k) { keep.push(k); }
+        }
+        keep.sort();
+        ks = keep;
+    }
+    for k in &ks { ex.op_restore(tr, *k, 0); }
+    // --- torn tails: byte offsets inside the last 3 records (thorough: all; quick: 6 random ones)
+    let first = n.saturating_sub(3);
+    let mut cuts: Vec<(usize, u64)> = vec![];
+    for k in first..n {
+        let size = ex.boundary(k + 1) - ex.boundary(k);
+        for e in 1..size { cuts.push((k, e)); }
+    }
+    if !thorough {
+        let mut sel = vec![];
+        for _ in 0..6 { if !cuts.is_empty() { sel.push(*rng.pick(&cuts)); } }
+        cuts = sel;
+    }
+    for (k, e) in cuts { ex.op_restore(tr, k, e); }
+    if thorough && kind == "producible" {
+        // offsets inside the header: the reader refuses the file (observation, no monitor)
+        for e in 0..ex.hdr { tr.op(&format!("hdrcut {e}")); tr.out(&format!("res {}", hdr_cut(&ex, e))); }
+    }
+    // --- prune at action boundaries
+    if kind != "malformed" {
+        let pts = g.prune_points.clone();
+        let n_prunes = if thorough { 10 } else { 3 };
+        for _ in 0..n_prunes {
+            let i = rng.below(pts.len() as u64) as usize;
+            let (k, lj, lw) = &pts[i];
+            ex.op_prune(tr, *k, lj, lw);
+            ex.op_prestore(tr);
+            // continue the history on the pruned file up to a later action boundary, restore, prune again
+            if i + 1 < pts.len() {
+                let i2 = (i + 1 + rng.below(4) as usize).min(pts.len() - 1);
+                let (k2, lj2, lw2) = &pts[i2];
+                for r in recs[*k..*k2].to_vec() { ex.op_papp(tr, r); }
+                ex.op_prestore(tr);
+                ex.op_pprune(tr, lj2, lw2);
+                ex.op_prestore(tr);
+                // pruning twice with the same live sets changes nothing
+                let before = ex.pruned.clone();
+                ex.op_pprune(tr, lj2, lw2);
+                if ex.pruned != before {
+                    tr.mon_fail("c12.wf", "prune-not-idempotent", "pruning a pruned journal with the same live sets changed it");
+                }
+            }
+        }
+    }
+    tr.end();
+}
+
+fn hdr_cut(ex: &Exec, e: u64) -> String {
+    let full = std::fs::read(ex.dir.join("journal.bin")).unwrap();
+    let p = ex.dir.join("hdr.bin");
+    std::fs::write(&p, &full[..e as usize]).unwrap();
+    exec::real_restore(&p).status
+}
+
+fn replay(tr: &mut Trace) {
+    let stdin = std::io::stdin();
+    let mut cur: Option<(tempfile::TempDir, Exec)> = None;
+    for line in stdin.lock().lines() {
+        let line = line.unwrap();
+        let toks: Vec<&str> = line.split_whitespace().collect();
+        match toks.as_slice() {
+            ["case", idx, subseed, params @ ..] => {
+                if cur.is_some() { tr.end(); }
+                let dir = workdir();
+                let monitors = !params.iter().any(|p| *p == "kind=malformed");
+                let ex = Exec::new(dir.path(), monitors);
+                let params: Vec<String> = params.iter().map(|p| if p.starts_with("hdr=") { format!("hdr={}", ex.hdr) } else { p.to_string() }).collect();
+                tr.case(idx.parse().unwrap_or(0), subseed.parse().unwrap_or(0), &params.join(" "));
+                cur = Some((dir, ex));
+            }
+            ["op", rest @ ..] => {
+                let Some((_, ex)) = cur.as_mut() else { continue };
+                match rest {
+                    ["rec", _size, r @ ..] => match Rec::parse(r) {
+                        Some(rec) => { let toks = rec.tokens(); let size = ex.append(rec); tr.op(&format!("rec {size} {toks}")); }
+                        None => { tr.op(&rest.join(" ")); tr.out("!bad-op"); }
+                    },
+                    ["restore", k, e] => ex.op_restore(tr, k.parse().unwrap(), e.parse().unwrap()),
+                    ["prune", k, lj, lw] => ex.op_prune(tr, k.parse().unwrap(), &u32s(lj), &u32s(lw)),
+                    ["papp", r @ ..] => match Rec::parse(r) {
+                        Some(rec) => ex.op_papp(tr, rec),
+                        None => { tr.op(&rest.join(" ")); tr.out("!bad-op"); }
+                    },
+                    ["pprune", lj, lw] => ex.op_pprune(tr, &u32s(lj), &u32s(lw)),
+                    ["prestore"] => ex.op_prestore(tr),
+                    _ => { tr.op(&rest.join(" ")); tr.out("!bad-op"); }
+                }
+            }
+            ["end"] => { if cur.take().is_some() { tr.end(); } }
+            _ => {}
+        }
+    }
+    if cur.is_some() { tr.end(); }
+}
+
+pub fn main(mode: &str, args: &[String]) {
+    let mut tr = Trace::new();
+    match mode {
+        "gen" => {
+            let a = GenArgs::parse(args);
+            let actions: u32 = a.value("--actions").map(|s| s.parse().unwrap()).unwrap_or(if a.thorough { 70 } else { 45 });
+            for k in 0..a.cases {
+                let subseed = a.case_seed(k);
+                // per 8 cases: 1 malformed, 1 with batches spanning two jobs, 1 with failures before the first start
+                let kind = match k % 8 { 3 => "failstart", 5 => "malformed", 6 => "multibatch", _ => "producible" };
+                let kind = a.value("--kind").unwrap_or(kind).to_string();
+                gen_case(&mut tr, a.shard * 1_000_000 + k, subseed, a.thorough, &kind, actions);
+                tr.flush();
+            }
+        }
+        "replay" => replay(&mut tr),
+        _ => {
+            eprintln!("component journal: unknown mode {mode}");
+            std::process::exit(2);
+        }
+    }
+    tr.flush();
 }
